@@ -22,10 +22,12 @@ func (m *Map) Build(gen Generator, ctx *MethodContext, sourceID *xtype.JenID, so
 func (*Map) Assign(gen Generator, ctx *MethodContext, assignTo *AssignTo, sourceID *xtype.JenID, source, target *xtype.Type, errPath ErrorPath) ([]jen.Code, *Error) {
 	ctx.SetErrorTargetVar(jen.Nil())
 	key, value := ctx.Map()
+	// The loop variables must not be referenced (OtherID): before Go 1.22 they are shared by all
+	// iterations, a pointer to them would see the last entry.
 
 	errPath = errPath.Key(jen.Id(key))
 
-	block, keyID, err := gen.Build(ctx, xtype.VariableID(jen.Id(key)), source.MapKey, target.MapKey, errPath)
+	block, keyID, err := gen.Build(ctx, xtype.OtherID(jen.Id(key)), source.MapKey, target.MapKey, errPath)
 	if err != nil {
 		return nil, err.Lift(&Path{
 			SourceID:   "[]",
@@ -35,7 +37,7 @@ func (*Map) Assign(gen Generator, ctx *MethodContext, assignTo *AssignTo, source
 		})
 	}
 	valueStmt, err := gen.Assign(
-		ctx, assignTo.WithIndex(keyID.Code).MustAssign(), xtype.VariableID(jen.Id(value)), source.MapValue, target.MapValue, errPath)
+		ctx, assignTo.WithIndex(keyID.Code).MustAssign(), xtype.OtherID(jen.Id(value)), source.MapValue, target.MapValue, errPath)
 	if err != nil {
 		return nil, err.Lift(&Path{
 			SourceID:   "[]",
